@@ -133,22 +133,26 @@ NOT_YET = {}
 
 # sentences appended to the level text (obligations added while the checks were being strengthened, DESIGN.md 8.5)
 EXTRA = {
-    "C01": " Also: single / batch / Dask agreement with means up to 1e6 standard deviations from the origin, 8..64 features, and 1e3..7e4 rows in one call.",
-    "C02": " Also: the reduction in front of the M-step (module-level m_step on per-block statistics and a one-step Dask fit with the same blocks) consumes the sum over every block; 1e3..7e4 rows in one call.",
-    "C03": " Also: integer-typed training rows; a fit that is still iterating two steps after the predicted stop is reported through the harness's iteration budget instead of being waited for.",
-    "C04": " Also: the number of iterations (counted M-steps) is compared; blocks of 1e3..7e4 rows with the k-means criterion checked against the definition.",
-    "C05": " Also: integer-typed adaptation data.",
-    "C06": " Also: data 1e3..1e8 spreads away from the origin (tolerances follow the rounding of differences), 1e3..7e4 rows, and an iteration budget for fits that do not stop.",
-    "C07": " Also: a machine that has enrolled, is then re-trained / edited in place / re-pointed to another UBM and enrols again behaves like a fresh machine with the same parameters.",
-    "C10": " Also: integer-typed sigma / T.",
-    "C11": " Also: features in any unit (standard deviations 1e-6..1e3).",
-    "C12": " Also: the same bag object trained from twice in one process with two different labellings.",
-    "C13": " Also: 16..48 features with floor-level or huge variances (products of variances outside the double range).",
-    "C14": " Also: data up to 1e7 spreads away from the origin; integer-typed data.",
-    "C15": " Also: fixed-ratio and Reynolds MAP with a prior component of tiny-positive or zero responsibility mass.",
-    "C16": " Also: ISV/JFA machines whose UBM is trained at fit time; WCCN on Dask input in the row-order relation.",
-    "C19": " Also: features in any unit (variances down to 1e-12) and i-vector statistics with a component that has no data anywhere.",
-    "C20": " Also: a machine that has answered, has its centroids edited in place / re-assigned / re-trained and answers again; 1e3..7e4 rows in one call.",
+    "C01": " Also: single / batch / Dask agreement with means up to 1e6 standard deviations from the origin, 8..64 features, 1e3..7e4 rows in one call and a dozen or two of Dask row blocks; weights below machine epsilon, weights on another scale than sum-to-one, weights set through the constructor or an in-place operator; tied and permuted variance vectors; two parameter sets scored on one Dask array and computed together.",
+    "C02": " Also: the reduction in front of the M-step (module-level m_step on per-block statistics and a one-step Dask fit with the same blocks) consumes the sum over every block; 1e3..7e4 rows in one call; blocks reloaded from HDF5 into containers of the same or another shape; empty containers as operands of mismatched additions; lazy (Dask-backed) block statistics added with + and +=; mixtures of 17..40 components; ML or MAP machines with any update switches.",
+    "C03": " Also: integer-typed training rows; the exact number of M-steps performed is compared with the stop rule (thresholds down to 1e-12 and 0, caps up to 30) whenever no convergence value comes within rounding of the threshold; a fit still iterating after the predicted stop is reported through the harness's iteration budget; settings that arrive after construction (set_params, attributes, a MAP machine switched to ML); a second fit() on the same object applies the rule afresh; unknown-chunk Dask arrays and rows at the origin forming blocks.",
+    "C04": " Also: the number of iterations (counted M-steps) is compared; blocks of 1e3..7e4 rows with the k-means criterion checked against the definition; count floors up to 0.3; unknown-chunk Dask arrays; WCCN classes with a single sample.",
+    "C05": " Also: integer-typed adaptation data; count floors up to 0.3; per-component ratio arrays; the M-step function called directly vs one fit iteration; priors that are themselves MAP-adapted machines.",
+    "C06": " Also: data 1e3..1e8 spreads away from the origin (tolerances follow the rounding of differences), 1e3..7e4 rows (and 32 clusters x 4e4..7e4 rows), an iteration budget for fits that do not stop, and settings that arrive after construction (set_params, attributes, clone).",
+    "C07": " Also: a machine that has enrolled, is then re-trained / edited in place / re-pointed to another UBM and enrols again behaves like a fresh machine with the same parameters; statistics whose arrays are still lazy.",
+    "C08": " Also: statistics whose arrays are lazy; components with posterior mass at the bottom of the float range; the same statistics object listed twice with per-item offsets; the normalisation flag as np.bool_ / 0 / 1; a model 1e-7 (relative) off the UBM.",
+    "C09": " Also: fit_using_array runs the same phases as fit on the statistics of the same arrays (NumPy and Dask); a second fit() on the same machine ends where a fresh machine started from the first result ends.",
+    "C10": " Also: integer-typed sigma / T; variance floors above the held values; training from bags (built or lazily mapped) on the isolating executor; UBMs of 9..17 components of which two to four are reached.",
+    "C11": " Also: features in any unit (standard deviations 1e-6..1e3); clients with a residual offset of exactly zero; probes of 1e5..1e9 frames with channel directions of very different strength (condition numbers 1e10..1e12, tolerance 1e3*eps*cond); a probe handed over as a bare 2-D array; 3-D Dask input chunked along the frame axis; a UBM that is an ML machine warm-started from another GMM.",
+    "C12": " Also: the same bag object trained from twice in one process with two different labellings; lazily mapped bags; 5-6 EM iterations.",
+    "C13": " Also: 16..48 features with floor-level or huge variances (products of variances outside the double range); machines whose variances are left to fit's fallback under floors above 1; scalar and per-component MAP ratios.",
+    "C14": " Also: data up to 1e7 spreads away from the origin; integer-typed data; huge consecutive class ids; errors raised while a lazy result is evaluated are attributed to the code under test.",
+    "C15": " Also: fixed-ratio and Reynolds MAP with a prior component of tiny-positive or zero responsibility mass; the k-means relation on Dask input with rows stored cluster after cluster, with a threshold, and with starts that leave a cluster without rows; a GMM initialised from k-means under similarity transforms; the public M-step called directly with the switches as arguments.",
+    "C16": " Also: ISV/JFA machines whose UBM is trained at fit time (also under renamed classes); WCCN on Dask input in the row-order relation and with single-sample classes; seeded k-means initialisers on few rows with up to five clusters.",
+    "C17": " Also: floors given as a (K,1) column or (1,D) row; the machine's arrays lent to another machine; operations whose effect is only observed later (likelihoods are not evaluated after every step); Gaussians of another feature dimension assigned through the setters; machines that only hold means and floors before training; training steps on Dask input on a memory-sharing or an isolating executor.",
+    "C18": " Also: machines whose own parameters were assigned through the setters whatever their switches; a legacy file read again after another machine file, and read with a UBM argument like its counterpart.",
+    "C19": " Also: features in any unit (variances down to 1e-12) and i-vector statistics with a component that has no data anywhere; labels kept as an (N,1) column; per-component MAP ratio arrays and constructor weights as caller-owned arrays; count floors that starve every component; machines that draw their own starting matrices.",
+    "C20": " Also: a machine that has answered, has its centroids edited in place / re-assigned / re-trained and answers again; 1e3..7e4 rows in one call; up to 14 centroids; lazy transform / predict results used as they are (declared shapes, single columns and labels).",
 }
 
 
